@@ -26,6 +26,7 @@ import GoProbeModel.Spec.C07
 import GoProbeModel.Spec.C02
 import GoProbeModel.Spec.C26
 import GoProbeModel.Spec.C25
+import GoProbeModel.Spec.C10
 
 /-!
 `gpjudge`: executable specs. Reads lines `<Cxx> <case fields…> => <implementation output>` and
@@ -59,5 +60,6 @@ def main : IO Unit := DriverLoop.runJudge [
   ("C07", C07.judge),
   ("C02", C02.judge),
   ("C26", C26.judge),
-  ("C25", C25.judge)
+  ("C25", C25.judge),
+  ("C10", C10.judge)
 ]
